@@ -7,6 +7,7 @@ package c03
 import (
 	"bytes"
 	"fmt"
+	"math"
 	"runtime"
 	"sort"
 	"strings"
@@ -59,6 +60,8 @@ type hist struct {
 	failingSeen bool
 	paths       map[string]bool
 	offered     [][]byte // all transactions offered so far at the current height
+	forced      []string // transaction kinds that the next height must contain (swap plan)
+	rootForced  []string // same for the next root-chain step
 }
 
 func (h *hist) fatalf(format string, a ...any) {
@@ -158,7 +161,22 @@ func runHistory(t *rapid.T, rec *ev.Rec, forceNestedEmptyDex bool) {
 	syncLockstep := rapid.Bool().Draw(t, "syncLockstep")
 	cs.ClassIf(syncLockstep, "sync=lockstep")
 	cs.ClassIf(!syncLockstep, "sync=at-end")
+	// swap plan (2 of 3 histories): several sell orders are opened at the start and ALL locked in one later proposal
+	swapPlan := rapid.SampledFrom([]bool{true, true, false}).Draw(t, "swapPlan") && !forceNestedEmptyDex
+	lockAt := rapid.IntRange(1, 2).Draw(t, "lockAt")
+	cs.ClassIf(swapPlan, "swap-plan(>=2 lock orders in one proposal)")
 	for i := 0; i < heights; i++ {
+		if swapPlan && i == 0 {
+			if h.root != nil {
+				h.rootForced = []string{"create-order-peer", "create-order-peer", "create-order-peer"}
+				h.rootStep()
+			} else {
+				h.forced = []string{"create-order", "create-order", "create-order"}
+			}
+		}
+		if swapPlan && i == lockAt {
+			h.forced = append(h.forced, "lock-orders")
+		}
 		if h.root != nil {
 			for k := rapid.IntRange(0, 2).Draw(t, "rootSteps"); k > 0; k-- {
 				h.rootStep()
@@ -189,6 +207,12 @@ func runHistory(t *rapid.T, rec *ev.Rec, forceNestedEmptyDex bool) {
 // rootStep advances the root chain of the nested setup by one height on its single node
 func (h *hist) rootStep() {
 	ra := h.root.Nodes[0]
+	for _, k := range h.rootForced {
+		for _, tx := range h.rootW.GenTx(h.t, ra.Height(), []string{k}) {
+			_ = ra.AddTx(tx.Bytes)
+		}
+	}
+	h.rootForced = nil
 	for k := h.t_int(0, 3, "rootTx"); k > 0; k-- {
 		for _, tx := range h.rootW.GenTx(h.t, ra.Height(), rootKinds) {
 			_ = ra.AddTx(tx.Bytes)
@@ -286,6 +310,13 @@ func (h *hist) height(syncLockstep bool) {
 		}
 	}
 	nTx := h.t_int(5, 14, "nTx")
+	for _, k := range h.forced {
+		saved := h.kinds
+		h.kinds = []string{k}
+		add(1)
+		h.kinds = saved
+	}
+	h.forced = nil
 	add(nTx / 2)
 	// a different proposal of the same height for speculative validations
 	var altQC *lib.QuorumCertificate
@@ -299,6 +330,9 @@ func (h *hist) height(syncLockstep bool) {
 		}
 	}
 	add(nTx - nTx/2)
+	// the two-proposer comparison below needs the SAME mempool (content and arrival order) on P and R; an earlier speculative
+	// proposal of P may have evicted transactions that would succeed now
+	samePools := poolList(P) == poolList(R)
 	vs0, _ := P.Committee(P.C.RootChainHeight())
 	round := uint64(h.t_int(0, 2, "round"))
 	res, err := h.g.Certify(0, h.quorum(vs0), round)
@@ -333,7 +367,9 @@ func (h *hist) height(syncLockstep bool) {
 	h.cs.Desc("h%d:block txs=%d dropped=%d signers=%v round=%d", ht, len(blk.Transactions), len(failed), res.Signers, round)
 
 	// second proposer with the same mempool: same included list, same failed set, same transaction root and counters
-	if h.t_int(0, 2, "secondProposer") == 0 {
+	if second := h.t_int(0, 2, "secondProposer") == 0; second && !samePools {
+		h.cs.Class("second-proposer-skipped(mempools differ)")
+	} else if second {
 		h.perturb(R, "R-produce")
 		p2, e := R.Produce()
 		if e != nil {
@@ -562,4 +598,15 @@ func diffHeaders(a, b *lib.BlockHeader) string {
 	}
 	sort.Strings(out)
 	return strings.Join(out, "\n")
+}
+
+// poolList renders a node's mempool in its proposal order
+func poolList(n *nodesim.Node) string {
+	n.Sim.Activate(n)
+	var sb strings.Builder
+	for _, tx := range n.C.Mempool.GetTransactions(math.MaxUint64) {
+		sb.WriteString(crypto.HashString(tx)[:10])
+		sb.WriteByte(',')
+	}
+	return sb.String()
 }
